@@ -439,6 +439,12 @@ func (w *World) run(call *Call) {
 	ctx, cancel := ctxWithCancel()
 	call.cancel = cancel
 	defer cancel()
+	// the caller's header hook is a legitimate place for time to pass between building a request
+	// (query, body, tunnelling) and sending it
+	ctx = restli.ExtraRequestHeaders(ctx, func() (http.Header, error) {
+		kern.Yield("extra-headers")
+		return nil, nil
+	})
 	args := []reflect.Value{reflect.ValueOf(ctx)}
 	args = append(args, call.Args...)
 	func() {
